@@ -130,8 +130,9 @@ func XML(URL *models.URL) (assets, outlinks []*models.URL, err error) {
 				}
 			}
 		case xml.CharData:
-			if bytes.HasPrefix(tok, []byte("http")) {
-				rawURLs = append(rawURLs, string(tok))
+			if text := bytes.TrimSpace(tok); bytes.HasPrefix(text, []byte("http")) && !bytes.ContainsAny(text, " \t\r\n") {
+				// the whole text node is the URL (surrounding white space is layout)
+				rawURLs = append(rawURLs, string(text))
 			} else {
 				// Try to extract URLs from the text
 				rawURLs = append(rawURLs, utils.DedupeStrings(LinkRegexStrict.FindAllString(string(tok), -1))...)
